@@ -1347,7 +1347,8 @@ class TransactionEvaluator:
             raise ExpressionError("Only simple loop variables supported (not tuple unpacking)")
 
         for item in iterable:
-            # Set loop variable in scope
+            # Set loop variable in scope (a name bound to None is bound all the same)
+            was_bound = var_name in self._scope
             old_value = self._scope.get(var_name)
             self._scope[var_name] = item
 
@@ -1359,10 +1360,10 @@ class TransactionEvaluator:
                 self._eval_comprehension_loop(generators, index + 1, element_expr, result)
 
             # Restore old scope value
-            if old_value is None:
-                self._scope.pop(var_name, None)
-            else:
+            if was_bound:
                 self._scope[var_name] = old_value
+            else:
+                self._scope.pop(var_name, None)
 
     def _eval_GeneratorExp(self, node: ast.GeneratorExp) -> Any:
         """Evaluate (expr for x in iter if cond).
@@ -1394,6 +1395,7 @@ class TransactionEvaluator:
             raise ExpressionError("Only simple loop variables supported")
 
         for item in iterable:
+            was_bound = var_name in self._scope
             old_value = self._scope.get(var_name)
             self._scope[var_name] = item
 
@@ -1405,10 +1407,10 @@ class TransactionEvaluator:
                 if conditions_pass:
                     yield from self._generator_helper(generators, index + 1, element_expr)
             finally:
-                if old_value is None:
-                    self._scope.pop(var_name, None)
-                else:
+                if was_bound:
                     self._scope[var_name] = old_value
+                else:
+                    self._scope.pop(var_name, None)
 
     def _eval_Subscript(self, node: ast.Subscript) -> Any:
         """Evaluate list[index] access."""
